@@ -134,3 +134,26 @@ func OffsetOf(src string, holes []Hole, needle string) int {
 	}
 	return len(subst(src[:i], holes))
 }
+
+// PosOf converts a byte offset in the named file into a token.Pos of the program's file set.
+func (p *Prog) PosOf(filename string, offset int) token.Pos {
+	var res token.Pos
+	p.fset.Iterate(func(f *token.File) bool {
+		if f.Name() == filename {
+			res = f.Pos(offset)
+			return false
+		}
+		return true
+	})
+	return res
+}
+
+// LineStartOf returns the offset (in the substituted source) of the first byte of the line that contains needle.
+func LineStartOf(src string, holes []Hole, needle string) int {
+	i := strings.Index(src, needle)
+	if i < 0 {
+		panic("LineStartOf: needle not found: " + needle)
+	}
+	s := subst(src[:i], holes)
+	return strings.LastIndex(s, "\n") + 1
+}
